@@ -1,11 +1,47 @@
 import Mimium.Model.Migration
 import Mimium.Model.StateTreeIO
-/-! `drv_c07`: does the (model of the pinned) migration plan carry sibling i of the old dsp layout onto sibling j of the new one?
-Input: `id \t oldSkeleton \t newSkeleton \t i:j,i:j,…`   Output: `id \t 1,0,…` -/
+import Mimium.Model.LiveCoding
+import Mimium.Model.CoreIO
+/-! `drv_c07`: (1) does the (model of the pinned) migration plan carry sibling i of the old dsp layout onto sibling j of the new one?
+Input: `id \t oldSkeleton \t newSkeleton \t i:j,i:j,…`   Output: `id \t 1,0,…`
+(2) the PREDICTED output stream of a whole live-coding session (`Model/LiveCoding.lean: session`):
+Input: `id \t session \t times \t inputs \t t:k,t:k,… \t sx0 \t sx1 \t …`  (inputs as for `drv_prog`; before sample `t` the event
+`t:k` swaps to program `k` of the list; `sx0` runs first; a program given as `BROKEN` does not compile)
+Output: `id \t ok w,w;w,w;…` (samples separated by `;`, channels by `,`) or `id \t error` (evaluation error / no migration in the model) -/
 open Mimium Mimium.StateTree Mimium.Migration
+
+def parseInputs (s : String) : List (List UInt64) :=
+  if s == "-" || s.isEmpty then [] else
+  (s.splitOn ";").map fun smp => if smp.isEmpty then [] else (smp.splitOn ",").map Core.parseHex
+
+def parseEvents (s : String) : Option (List (Nat × Nat)) :=
+  if s == "-" || s.isEmpty then some [] else
+  (s.splitOn ",").mapM fun ev =>
+    match ev.splitOn ":" with
+    | [t, k] => (match t.toNat?, k.toNat? with
+        | some t, some k => some (t, k)
+        | _, _ => none)
+    | _ => none
+
+def parseProgOrBroken (sx : String) : Option Core.Prog :=
+  if sx == "BROKEN" then some LiveCoding.brokenProg else Core.parseProg sx
+
+def sessionLine (id times inputs events : String) (sxs : List String) : String :=
+  match times.toNat?, parseEvents events, sxs.mapM parseProgOrBroken with
+  | some n, some evs, some (P0 :: progs) =>
+    let all := P0 :: progs
+    match evs.mapM fun (t, k) => (all[k]?).map fun Q => (t, Q) with
+    | none => s!"{id}\tbad-event"
+    | some swaps =>
+      let ins := parseInputs inputs
+      match LiveCoding.session 200000 (48000.0 : Float).toBits P0 swaps (fun t => ins.getD t []) n with
+      | none => s!"{id}\terror"
+      | some rows => s!"{id}\tok " ++ ";".intercalate (rows.map fun r => ",".intercalate (r.map Core.showWord))
+  | _, _, _ => s!"{id}\tbad-input"
 
 def c07Line (line : String) : String :=
   match line.splitOn "\t" with
+  | id :: "session" :: times :: inputs :: events :: sxs => sessionLine id times inputs events sxs
   | [id, o, n, pairs] =>
     match parseSk o, parseSk n with
     | some o, some n =>
